@@ -91,6 +91,22 @@ def iter_source(t):
     return t, 'iter'
 
 
+def _range_upper(x):
+    """upper end hi (inclusive bound) when x is an element of, or the result of find()/position() over, a range lo..=hi or lo..hi"""
+    t = x
+    if isinstance(t, tuple) and t and t[0] == 'some_of':
+        t = t[1]
+    if isinstance(t, tuple) and t and t[0] in ('find', 'elem'):
+        r = t[1]
+        if isinstance(r, tuple) and r and r[0] == 'call' and r[1].split('::')[-1] == 'new' and 'RangeInclusive' in r[1] and len(r) >= 4:
+            return r[3]
+        if isinstance(r, tuple) and r and r[0] == 'adt' and r[1].startswith('std::ops::Range'):
+            d = dict(r[3])
+            if 'end' in d:
+                return d['end']
+    return None
+
+
 def enum_index_over(x, base):
     """x is the index delivered by enumerate() over `base` itself or over a zip that includes `base` (a zip is as long as its
        shortest component): then x < len(base)"""
@@ -551,7 +567,19 @@ class Discharger:
                 if len(a) == 2 and a[1][0] == 'index_of' and a[0][0] == 'field' and a[0][2] == 'name' and a[0][1][0] == 'elem' \
                         and a[0][1][1] == a[1][1]:
                     good += 1
-            self._cfgidx = ok and not writers and good == 2 and len(ins) == 2
+            built = good == 2 and len(ins) == 2
+            if not built:
+                # the other idiom: list.iter().enumerate().map(|(i, x)| (x.name.clone(), i)).collect()
+                lit = [e for e in wm.events if e.kind == 'adt' and e.data['adt'].endswith('MainState')]
+                good2 = 0
+                for f_, l_ in (('user_config_idxs', 'users'), ('oper_config_idxs', 'operators')):
+                    v = lit[0].data['fields'].get(f_) if len(lit) == 1 else None
+                    lst = ('some_of', ('field', P('config'), l_))
+                    if isinstance(v, tuple) and v[:1] == ('mapped',) and v[1] == ('enum', lst) and \
+                            v[2] == ('tuple', ('field', ('elem', lst), 'name'), ('index_of', lst)) and v[3] in (('T',), T):
+                        good2 += 1
+                built = good2 == 2 and not ins
+            self._cfgidx = ok and not writers and built
         if not self._cfgidx:
             return False
         r = repr(t) + repr(s.detail.get('index'))
@@ -809,6 +837,16 @@ class Discharger:
                     return True
                 if enum_index_over(x, base):
                     return True
+                # an element of / a find() result over the range lo..=hi is <= hi
+                rb = _range_upper(x)
+                if rb is not None and (rb == ln or (rb[0] == 'sub' and rb[1] == ln)):
+                    return True
+                # y + b with y drawn from a range whose upper end is len - b
+                if x[0] == 'add':
+                    for y, b_ in ((x[1], x[2]), (x[2], x[1])):
+                        ry = _range_upper(y)
+                        if ry is not None and ry == ('sub', ln, b_):
+                            return True
                 # x <= len - b   (b unsigned)
                 if any(a == x and b[0] == 'sub' and b[1] == ln for (a, b) in les):
                     return True
@@ -897,6 +935,8 @@ class Discharger:
             return 'D1', 'full range'
         if nm in ('chunks',) and len(args) >= 2 and args[1][0] == 'const':
             return 'D4', 'named constant'
+        if nm == 'split_at' and len(args) >= 2 and self.boundary_ok(s.ev.pc, args[0], args[1], w):
+            return 'D1', 'split position is an in-bounds character boundary of the same string'
         return None, 'library precondition (%s) not established' % s.detail.get('why')
 
 
